@@ -113,6 +113,12 @@ func Shrink(p *Plan) []any {
 		if cp.CloseAct != 0 {
 			try(func(q *Plan) { q.Conns[i].CloseAct = 0 })
 		}
+		if len(cp.CloseW) > 0 {
+			try(func(q *Plan) { q.Conns[i].CloseW = nil })
+		}
+		if cp.CloseAgain != 0 {
+			try(func(q *Plan) { q.Conns[i].CloseAgain = 0 })
+		}
 		for j := range cp.Peer {
 			j := j
 			try(func(q *Plan) { q.Conns[i].Peer = append(q.Conns[i].Peer[:j], q.Conns[i].Peer[j+1:]...) })
